@@ -33,13 +33,20 @@ def replay_one(chk, rp):
         ok, res = C.wellformed(doc)
         print('replay:', repr(doc)[:400], '->', 'well-formed' if ok else res)
         return 0 if ok else 1
+    if 'generated_prefix_history' in inp:
+        C.generated_prefix_one(chk, inp['generated_prefix_history'])
+        for f in chk.failures:
+            print('replay:', f['sig'], f['case'].get('rendering', ''), '->', f['detail'][:300])
+        print('replay: %d finding(s) after this history' % len(chk.failures)); return 1 if chk.failures else 0
     print('replay: re-running the whole check with the recorded seed'); return None
 
 
 def run(chk, replay=None):
     chk.rule = ('every code point in text/attribute/CDATA position; all strings <= 3 (quick) / 5 (thorough) over 13 XML-significant '
                 'characters in the three positions; seeded random trees (depth <= 4, foreign/empty namespaces, nasty strings); '
-                'random documents through all seven renderings; namespace-table histories in fresh interpreters. '
+                'random documents through all seven renderings; namespace-table histories in fresh interpreters; histories in which '
+                'load() meets source prefixes of the generated form ns<k> and further foreign namespaces follow, every rendering after; '
+                'every adjacent high+low surrogate pair. '
                 'non-trivial = non-empty string / tree with attributes or children')
     if replay is not None:
         r = replay_one(chk, replay)
@@ -49,6 +56,7 @@ def run(chk, replay=None):
     drv = C.setup(chk, ['OdfModel.Props.C01'])
     fs = C.encoders(chk, drv)
     C.strings_check(chk, drv, fs, want_identity=False)
+    C.surrogate_pairs_check(chk, drv, fs, want_identity=False)
     C.adjacent_nodes_check(chk, drv, want_identity=False)
     C.trees_check(chk, drv, want_identity=False)
     C.extreme_trees_check(chk, drv, want_identity=False)
@@ -56,6 +64,7 @@ def run(chk, replay=None):
     C.tableless_kwargs_check(chk)
     C.loaded_samples_check(chk)
     C.histories_check(chk, drv)
+    C.generated_prefix_histories_check(chk, drv)
     C.alive_across_load_check(chk)
     C.fresh_process_documents_check(chk)
     return chk.finish()
